@@ -121,7 +121,8 @@ Section CODEC.
     end.
 
   (* makeObject + buildResObj for a flat object: declared primitive properties, then the
-     additionalProperties schema for every key (overwriting); undeclared keys are dropped *)
+     additionalProperties schema for every key that is not declared; without such a schema
+     undeclared keys are dropped *)
   Definition build_prop (props : list (string * string)) (k : string) (c : score) : option pres :=
     match assoc k props with
     | None => None
@@ -149,7 +150,8 @@ Section CODEC.
         | Some c =>
             (* an empty member name makes buildResObj look at the whole map: ParseError *)
             if existsb (fun kv => String.eqb (fst kv) "") props then None
-            else build_props props (map (fun kv => (fst kv, c)) props) m
+            else build_props props (map (fun kv => (fst kv, c))
+                                        (filter (fun kv => negb (str_in (fst kv) (map fst decl))) props)) m
         end
     end.
 
